@@ -879,6 +879,67 @@ func waitingCalls(id string, soft, stats bool) runner.Result {
 	return res
 }
 
+// waitingBehindSoftCancelled: soft cancel mode. RPC 1 is blocked in a receive when its context is
+// cancelled; its cancel packet cannot leave (the transport has stopped taking writes), so its stream is
+// terminated but not finished, and the connection lets the next call in to wait for it. An Invoke and a
+// NewStream of other goroutines do, and then their own context is cancelled: they must return with it,
+// stalled transport or not.
+func waitingBehindSoftCancelled(id string, stats bool) runner.Result {
+	mopts := drpcmanager.Options{SoftCancel: true}
+	handler := rig.HandlerFunc(func(stream drpc.Stream, rpc string) error {
+		<-stream.Context().Done()
+		return nil
+	})
+	rg := rig.New(rig.Config{Net: simnet.Opts{Cap: -1}, Client: mopts, Server: mopts, CollectStats: stats}, handler)
+	defer rg.Teardown()
+	in := payload.Make(1, 0, 0, 0, 10)
+	ctx1, cancel1 := context.WithCancel(context.Background())
+	defer cancel1()
+	first := rig.Go("first", func() (interface{}, error) {
+		var out []byte
+		return nil, rg.Conn.Invoke(ctx1, "/wait", payload.Enc{}, &in, &out)
+	})
+	census.Quiesce(rig.Watchdog)
+	rg.Pair.A.StallWrites(true)
+	cancel1()
+	census.Quiesce(rig.Watchdog)
+	ctx2, cancel2 := context.WithCancel(context.Background())
+	defer cancel2()
+	w1 := rig.Go("waiting-invoke", func() (interface{}, error) {
+		var out []byte
+		return nil, rg.Conn.Invoke(ctx2, "/next", payload.Enc{}, &in, &out)
+	})
+	census.Quiesce(rig.Watchdog)
+	w2 := rig.Go("waiting-newstream", func() (interface{}, error) {
+		st, err := rg.Conn.NewStream(ctx2, "/next", payload.Enc{})
+		if err == nil {
+			st.Close()
+		}
+		return nil, err
+	})
+	census.Quiesce(rig.Watchdog)
+	waiting := !w1.Returned() && !w2.Returned()
+	cancel2()
+	_, snap := census.Quiesce(rig.Watchdog)
+	desc := fmt.Sprintf("waiting-behind-soft-cancelled stats=%v: RPC 1 cancelled in a receive with the transport not taking writes (first call returned=%v), an Invoke and a NewStream of other goroutines waiting behind it (waiting=%v), their context cancelled", stats, first.Returned(), waiting)
+	var fails []string
+	for name, w := range map[string]*rig.Op{"Invoke": w1, "NewStream": w2} {
+		if !w.Returned() {
+			fails = append(fails, "the "+name+" that was waiting behind the soft-cancelled stream is still blocked after its own context was cancelled")
+		} else if !errors.Is(w.Err, context.Canceled) {
+			fails = append(fails, fmt.Sprintf("the waiting %s returned %s, want its context's error", name, rig.ErrStr(w.Err)))
+		}
+	}
+	rg.Pair.A.StallWrites(false)
+	if len(fails) > 0 {
+		sort.Strings(fails)
+		return runner.Violation(id, fmt.Sprintf("cancel:waiting-behind-soft-cancelled stats=%v waiting-call", stats), desc+"\n"+strings.Join(fails, "\n")+"\n"+census.Dump(census.InDRPC(snap)))
+	}
+	res := runner.Hold(id, desc, waiting)
+	res.Events = 3
+	return res
+}
+
 // midMessage: the context is cancelled while a middle frame of a message that spans several frames
 // is inside the transport, and that write then completes successfully (its bytes were out already).
 // The send was blocked in the transport when the cancel happened: default mode promises the
@@ -1079,6 +1140,11 @@ func gen(tier string, seed uint64) []runner.Scenario {
 			id := fmt.Sprintf("waiting-calls/soft=%v/stats=%v", soft, stats)
 			out = append(out, runner.Scenario{ID: id, Run: func() runner.Result { return waitingCalls(id, soft, stats) }})
 		}
+	}
+	for _, stats := range []bool{false, true} {
+		stats := stats
+		id := fmt.Sprintf("waiting-behind-soft-cancelled/stats=%v", stats)
+		out = append(out, runner.Scenario{ID: id, Run: func() runner.Result { return waitingBehindSoftCancelled(id, stats) }})
 	}
 	for _, soft := range []bool{false, true} {
 		for _, unary := range []bool{false, true} {
